@@ -706,7 +706,7 @@ func asNontrivial(ev []map[string]any) bool {
 }
 
 var asOpsBasic = [][2]string{{"nop", ""}, {"nop", ""}, {"fail", ""}, {"tell", "@"}, {"kill", "@"}, {"pkill", "@"}}
-var asOpsStash = [][2]string{{"nop", ""}, {"stash", ""}, {"stash", ""}, {"unstash", ""}, {"fail", ""}, {"tell", "@"}, {"tellself", ""}}
+var asOpsStash = [][2]string{{"nop", ""}, {"stash", ""}, {"stash", ""}, {"stash", ""}, {"unstash", ""}, {"unstash", "1"}, {"unstash", "3"}, {"fail", ""}, {"tell", "@"}, {"tellself", ""}}
 var asOpsStream = [][2]string{{"nop", ""}, {"sub", "A"}, {"sub", "B"}, {"unsub", "A"}, {"unsub", "B"}, {"unsuball", ""}, {"sub", "C"}, {"sub", "D"}, {"unsub", "C"}, {"pub", "C"}, {"pub", "D"}, {"pub", "A"}, {"pub", "A"}, {"pub", "B"}, {"fail", ""}, {"kill", "@"}}
 var asOpsWatch = [][2]string{{"nop", ""}, {"watch", "@"}, {"watch", "@"}, {"unwatch", "@"}, {"kill", "@"}, {"pkill", "@"}, {"fail", ""}}
 
@@ -727,7 +727,7 @@ func init() {
 			res.Report(c, "MailboxMon")
 			c.Add("traces_validated_against_impl", int64(res.Validated))
 		}
-		asCheck(c, asPlan{prop: "C03", monitors: []string{"FateMon"}, mc: t3, gen: g3, ops: append(append([][2]string{}, asOpsBasic...), asOpsStash...),
+		asCheck(c, asPlan{prop: "C03", monitors: []string{"FateMon"}, mc: t3, gen: g3, ops: append(append([][2]string{}, asOpsBasic...), asOpsStash...), directed: asStashBatches,
 			vias: []string{"", "", "clone", "parsed", "held", "held"},
 			rule: base + "Judged by FateMon."})
 	})
